@@ -1,6 +1,7 @@
 package main
 
 import (
+	"os"
 	"fmt"
 	"go/token"
 	"go/types"
@@ -322,6 +323,9 @@ func (x *Exec) footprintGhosts(callee *ssa.Function) map[string]bool {
 				out[l.Ghost] = true
 			}
 		}
+		for _, gs := range k.GhostSets {
+			out[gs.Ghost] = true
+		}
 	}
 	for f := range fp.Funcs {
 		consider(x.sp.lookupFunc(f))
@@ -564,6 +568,9 @@ func (x *Exec) applyContract(st *State, in *ssa.Call, k *FuncSpec, sig *types.Si
 				label = fmt.Sprintf("%s.%d", shortCallee(ca.Callee), nth)
 			}
 			g := x.evalBool(cenv, ca.C.E)
+			if os.Getenv("GVC_DEBUG_ATCALL") != "" {
+				fmt.Fprintf(os.Stderr, "ATCALL %s nth=%d goal=%s\n", calleeName, nth, g.String())
+			}
 			x.oblige(st, "atcall", label, g, "at the call of "+calleeName+": "+ca.C.Src, in.Pos())
 			x.assumeIn(st, g)
 		}
@@ -625,8 +632,23 @@ func (x *Exec) applyContract(st *State, in *ssa.Call, k *FuncSpec, sig *types.Si
 		}
 	}
 	env.st = st
+	preN := len(st.pc)
 	for _, c := range k.Ensures {
 		x.assumeIn(st, x.evalBool(env, c.E))
+	}
+	// vacuity probe: the callee's postconditions must not contradict what the caller knows (a contradictory contract, or a
+	// frame that preserves something the callee's contract changes, would make everything after the call pass)
+	if len(k.Ensures) > 0 && !st.dead && in != nil {
+		ck := x.key + "|" + x.instrLabel(in, "call") + "|" + calleeName
+		if x.afterCovers == nil {
+			x.afterCovers = map[string]int{}
+		}
+		if x.afterCovers[ck] < 2 {
+			x.afterCovers[ck]++
+			x.obligs = append(x.obligs, &Oblig{Name: x.key + "#cover:after:" + shortCallee(calleeName) + ":" + x.instrLabel(in, "call"), Func: x.key, Kind: "cover",
+				Hyps: append([]*Term(nil), st.pc...), Goal: tFalse, Cover: true, PreN: preN, Path: describePath(st),
+				Desc: "the postconditions assumed for " + calleeName + " do not contradict the caller's state (vacuity probe; must not be unsat)"})
+		}
 	}
 	return res
 }
